@@ -43,6 +43,9 @@ func genTextCase(r *gen.R, so gen.StrOpt, o gen.Options) recCase {
 	}
 	c.msg = r.Str(so)
 	c.lvl = gen.Pick(r, nonTerminating)
+	if len(hostileTitleLevels) > 0 && r.P(8) {
+		c.lvl = gen.Pick(r, hostileTitleLevels)
+	}
 	if c.lvl == slog.AlwaysLevel && strings.Trim(c.msg, "\n\r \t") == "" {
 		c.lvl = slog.InfoLevel
 	}
@@ -91,6 +94,8 @@ func renameGroupKeys(r *gen.R, v *gen.V) {
 }
 
 func c05main(c *Ctx) {
+	registerHostileTitles()
+	c.R.Max("levels_registered_under_titles_that_need_escaping", int64(len(hostileTitleLevels)))
 	log := mon.NewLog()
 	w := mon.New(log, "W", mon.ShapePlain)
 	so := gen.StrOpt{HostilePc: 45, Long: true}
@@ -279,7 +284,7 @@ func c05check(payload []byte, cs recCase) (out []tv) {
 	if cs.name != "" {
 		expect("logger", quoted(cs.name, true))
 	}
-	expect("level", quoted(cs.lvl.String(), true))
+	expect("level", quoted(titleOf(cs.lvl), true))
 	expect("msg", quoted(cs.msg, true))
 	if len(out) > 0 {
 		return
